@@ -118,14 +118,21 @@ def functionReturn (k : Callable) (cls : Option IClass) : Except Err String := d
 
 /-! ### collector functions -/
 
+def mapJoin (xs : List α) (f : α → Except Err String) : Except Err String :=
+  match xs with
+  | [] => .ok ""
+  | x :: r => do let a ← f x; let b ← mapJoin r f; pure (a ++ b)
+
+
 def sharedBaseBlock (parent : Typename) (outIdx : String) : String :=
   "\n  typedef std::shared_ptr<" ++ tnToCpp parent ++ "> SharedBase;\n"
   ++ "  out[" ++ outIdx ++ "] = mxCreateNumericMatrix(1, 1, mxUINT32OR64_CLASS, mxREAL);\n"
   ++ "  *reinterpret_cast<SharedBase**>(mxGetData(out[" ++ outIdx ++ "])) = new SharedBase(*self);\n"
 
 /-- `generate_collector_function` for an existing map entry -/
-def collectorFunction (useBoost : Bool) (e : Entry) : Except Err String := do
-  let head := "void " ++ e.name ++ "(int nargout, mxArray *out[], int nargin, const mxArray *in[])\n"
+def collectorFunction (useBoost : Bool) (en : Entry) : Except Err String := do
+  let e := en.payload
+  let head := "void " ++ entryName en ++ "(int nargout, mxArray *out[], int nargin, const mxArray *in[])\n"
   match e.target with
   | .func o =>
     let body := "{\n  checkArguments(\"" ++ o.base.name ++ "\",nargout,nargin," ++ toString o.args.length ++ ");\n"
@@ -183,10 +190,10 @@ def collectorFunction (useBoost : Bool) (e : Entry) : Except Err String := do
         let so := "  auto obj = unwrap_shared_ptr<" ++ sep ++ ">(in[0], \"ptr_" ++ cn ++ "\");\n"
         let (pty, uw) := unwrapArgument v.ctype 1 (some c)
         let unpack := "  " ++ pty ++ " " ++ v.name ++ " = " ++ uw ++ "\n"
-        if pyIn "_get_" e.name then
+        if pyIn "_get_" (entryName en) then
           let rb ← collectorReturn ("obj->" ++ v.name) v.ctype (some c)
           body := body ++ "  checkArguments(\"" ++ v.name ++ "\",nargout,nargin-1,0);\n" ++ so ++ rb ++ "\n"
-        if pyIn "_set_" e.name then
+        if pyIn "_set_" (entryName en) then
           let isPtrType := canBePointer v.ctype && !isEnum v.ctype (some c)
           body := body ++ "  checkArguments(\"" ++ v.name ++ "\",nargout,nargin-1,1);\n" ++ so ++ unpack
             ++ "  obj->" ++ v.name ++ " = " ++ (if isPtrType then "*" else "") ++ v.name ++ ";\n"
@@ -194,53 +201,31 @@ def collectorFunction (useBoost : Bool) (e : Entry) : Except Err String := do
     body := body ++ "}\n" ++ (if isSer then "" else "\n")
     pure (head ++ body)
 
-def className (e : Entry) : String := match e.target with | .cls c => c.name | .func o => o.base.name
-def classCpp (e : Entry) : String := match e.target with | .cls c => c.toCpp | .func o => o.base.toCpp
+def className (e : Entry) : String := match e.payload.target with | .cls c => c.name | .func o => o.base.name
+def classCpp (e : Entry) : String := match e.payload.target with | .cls c => c.toCpp | .func o => o.base.toCpp
+
+/-- the routine a `case` calls -/
+def calleeName (id : Nat) (role : Ids.Role) (e : Entry) : String :=
+  match role with
+  | .routine => entryName e
+  | .upcast => className e ++ "_upcastFromVoid_" ++ toString id
 
 /-- `mex_function`: the `case` lines -/
-def mexCases (n : Nat) (map : List (Nat × Entry)) : String :=
-  let rec go (fuel id : Nat) (nextCase : Option String) : String :=
-    match fuel with
-    | 0 => ""
-    | fuel+1 =>
-      if id ≥ n then "" else
-      let here := map.lookup id
-      let (val, setNext) := match here with
-        | some e => (some e, false)
-        | none => (map.lookup (id + 1), true)
-      match val with
-      | none => go fuel (id + 1) nextCase
-      | some e =>
-        let callee := match nextCase with | some c => c | none => e.name
-        "    case " ++ toString id ++ ":\n      " ++ callee ++ "(nargout, out, nargin-1, in+1);\n      break;\n"
-          ++ go fuel (id + 1) (if setNext then some (className e ++ "_upcastFromVoid_" ++ toString (id + 1)) else none)
-  go (n + 1) 0 none
+def mexCases (st : Ids.IdState EntryP) : String :=
+  String.join ((Ids.caseTable st.entries st.next (st.next + 1) 0 none).map fun (id, role, e) =>
+    "    case " ++ toString id ++ ":\n      " ++ calleeName id role e ++ "(nargout, out, nargin-1, in+1);\n      break;\n")
 
-/-- the routines of `generate_wrapper` (`ptr_ctor_frag`) -/
-def routines (useBoost : Bool) (n : Nat) (map : List (Nat × Entry)) : Except Err String :=
-  let rec go (fuel idx : Nat) (setNext : Bool) : Except Err String :=
-    match fuel with
-    | 0 => .ok ""
-    | fuel+1 =>
-      if idx ≥ n then .ok "" else
-      let queued := setNext
-      match map.lookup idx with
-      | some e => do
-        let f ← collectorFunction useBoost e
-        let up ← (if queued then fmtE Gen.Matlab.tpl_collector_function_upcast_from_void
-            [("class_name", className e), ("cpp_name", classCpp e), ("id", toString idx)] else pure "")
-        let rest ← go fuel (idx + 1) false
-        pure (f ++ up ++ rest)
-      | none =>
-        match map.lookup (idx + 1) with
-        | none => go fuel (idx + 1) false
-        | some e => do
-          -- `generate_collector_function(idx)` yields '' for the reserved id
-          let up ← (if queued then fmtE Gen.Matlab.tpl_collector_function_upcast_from_void
-              [("class_name", className e), ("cpp_name", classCpp e), ("id", toString idx)] else pure "")
-          let rest ← go fuel (idx + 1) true
-          pure (up ++ rest)
-  go (n + 1) 0 false
+/-- the routines of `generate_wrapper` (`ptr_ctor_frag`), in the order of the same walk: an entry's routine is
+    emitted when the walk reaches the id it is stored under, its up-cast routine right after it -/
+def routines (useBoost : Bool) (st : Ids.IdState EntryP) : Except Err String :=
+  mapJoin ((Ids.caseTable st.entries st.next (st.next + 1) 0 none)) fun (id, role, e) =>
+    match role with
+    | .routine => if e.key == id then collectorFunction useBoost e else pure ""
+    | .upcast => do
+      let f ← collectorFunction useBoost e
+      let up ← fmtE Gen.Matlab.tpl_collector_function_upcast_from_void
+        [("class_name", className e), ("cpp_name", classCpp e), ("id", toString id)]
+      pure (f ++ up)
 
 def hasSerialization (c : IClass) : Bool := c.methods.any fun m => whitelist.contains m.name
 
@@ -277,8 +262,8 @@ def wrapperFile (cfg : MCfg) (st : St) : Except Err String := do
     ++ (if cfg.useBoost then Gen.Matlab.tpl_boost_headers else "") ++ "\n"
     ++ joinWith "\n" (incs.map fun h => "#include <" ++ h ++ ">") ++ "\n"
   let (tdefs, guid, colls, delAll, reg) ← preamble cfg st.classes
-  let frag ← routines cfg.useBoost st.nextId st.map
-  let mex ← fmtE Gen.Matlab.tpl_mex_function [("module_name", cfg.moduleName), ("cases", mexCases st.nextId st.map)]
+  let frag ← routines cfg.useBoost st.ids
+  let mex ← fmtE Gen.Matlab.tpl_mex_function [("module_name", cfg.moduleName), ("cases", mexCases st.ids)]
   pure (includes ++ "\n" ++ tdefs ++ "\n" ++ guid ++ "\n" ++ colls ++ "\n" ++ delAll ++ "\n" ++ reg ++ "\n" ++ frag ++ mex)
 
 /-! ### `generate_content`: writes in order, later writes win -/
